@@ -205,6 +205,9 @@ def module_text(ir, k, nstmts=None):
 
 # every name a main script gets without importing anything: the classes of the built-in types, and the classes the core
 # library defines (the iterator adaptors, Error and its subclasses, StopIter)
+DEEP = 61       # script frame + 62 frames of deep() + the importing function = 64 frames, the limit
+
+
 BUILTIN_CLASSES = ("[Type, Object, Nil, Bool, Num, Func, BuiltIn, Method, BuiltInMethod, String, Iter, MapIter, FilterIter, Tuple, Vec, HashMap, Fiber, "
                    "Error, RuntimeError, AttributeError, IndexError, ImportError, NameError, TypeError, ValueError, StopIter]")
 
@@ -214,6 +217,7 @@ def render(ir):
     out = []
     e = out.append
     e("var gv = 7;")
+    e("var clock = 4242;")      # the main script rebinds a built-in name; nothing an import does may undo that
     e("fn same_builtins(v) { var mine = %s; var n = 0; for i in 0..mine.len() { if v[i] == mine[i] { n = n + 1; } } return n * 100 + v.len(); }" % BUILTIN_CLASSES)
     e("var main_only = 1;")
     e("class MainOnlyClass { fn m(self) { return 1; } }")
@@ -230,6 +234,14 @@ def render(ir):
     e('fn pathmods() { import "px"; import "../px" as pxu; import "../../px" as pxuu; px.gv = px.gv + 1; return (px.gv, pxu.gv, pxuu.gv, px == pxu, pxu == pxuu); }')
     e("var auxset = [%s];" % ", ".join("|m, x| { var b = m.getaux(); m.aux%d = x; return (b, m.getaux(), m.aux%d); }" % (k, k) for k in range(n)))
     e("var imps = [%s];" % ", ".join("imp%d" % k for k in range(n)))
+    # an import attempted with the call stack one frame short of its limit: running the module body is refused (IndexError), which
+    # the importing function catches like any other failure of the import
+    for k, m in enumerate(ir["mods"]):
+        # (no call in the success path: there is no frame left for one)
+        e('fn impd%d() { var r = nil; try { import "%s"; r = %s; print(("ev", "drv-imp", %d, "ok", %s.gv)); } catch e { print(("ev", "drv-imp", %d, type(e))); } return r; }' % (
+            k, m["path"], m["bind"], k, m["bind"], k))
+    e("var impds = [%s];" % ", ".join("impd%d" % k for k in range(n)))
+    e("fn deep(n, k) { if n == 0 { return impds[k](); } return deep(n - 1, k); }")
     e("var mods = [%s];" % ", ".join("nil" for _ in range(n)))
     e("var fibs = [%s];" % ", ".join("nil" for _ in range(n)))
     e("fn record(k, r) {")
@@ -240,7 +252,7 @@ def render(ir):
     e("for step in 0..%d {" % ir["steps"])
     e('  var a = print(("pick", 11)); var k = print(("pick", %d)); var v = print(("pick", 50));' % n)
     e("  if a < 3 {")
-    e("    record(k, imps[k]());")
+    e("    if v %% 10 == 7 { record(k, deep(%d, k)); } else { record(k, imps[k]()); }" % DEEP)
     e("  } else if a == 3 {")
     e('    if mods[k] != nil { print(("ev", "getg", k, mods[k].getg(), mods[k].gv)); } else { print(("ev", "skip")); }')
     e("  } else if a == 4 {")
@@ -268,7 +280,7 @@ def render(ir):
     e("  } else if a == 10 {")
     e('    var r = "none"; try { r = finimps[v % 2](); } catch e { r = type(e); } print(("ev", "finimp", v % 2, r));')
     e("  } else {")
-    e('    gv = gv + 1; print(("ev", "maingv", gv, main_only));')
+    e('    gv = gv + 1; print(("ev", "maingv", gv, main_only, clock));')
     e("  }")
     e("}")
     e('print(("ev", "end", gv));')
@@ -358,7 +370,7 @@ def model(ir, tape, faults, chooser=None):
             probes.inc("fault_kind:" + kd)
             raise Thrown("RuntimeError" if kd == "CompileError" else kd)
 
-    def do_import(j, in_fiber, site_kind):
+    def do_import(j, in_fiber, site_kind, overflow=False):
         """generator: may yield suspension tokens (only when in_fiber); returns nothing; raises ImportErr/Thrown"""
         probes.inc("import_site:" + site_kind)
         if state[j] == "loaded":
@@ -377,6 +389,11 @@ def model(ir, tape, faults, chooser=None):
             raise ImportErr()
         if reads[j] > 1:
             probes.inc("transient_fault_then_loaded")
+        if overflow:
+            # read and compiled, but its body cannot be called: no frame left (the module stays registered, never loaded)
+            state[j] = "failed"
+            probes.inc("import_refused_at_the_frame_limit")
+            raise Thrown("IndexError")
         stmts = m["stmts"] if r[0] == "ok" else m["stmts"][:r[1]]
         state[j] = "loading"
         loads[j] += 1
@@ -425,10 +442,10 @@ def model(ir, tape, faults, chooser=None):
             raise
         state[j] = "loaded"
 
-    def imp_fn(k, in_fiber):
+    def imp_fn(k, in_fiber, overflow=False):
         """the driver's impK(): generator; returns True (module object) or None"""
         try:
-            yield from do_import(k, in_fiber, "driver_fiber" if in_fiber else "driver")
+            yield from do_import(k, in_fiber, "driver_fiber" if in_fiber else "driver", overflow)
             ev.append([s("drv-imp"), num(k), s("ok"), num(gv[k])])
             return True
         except ImportErr:
@@ -460,7 +477,7 @@ def model(ir, tape, faults, chooser=None):
             k = pick(n, "module")
             v = pick(50, "value")
             if a < 3:
-                record(k, sync(imp_fn(k, False)))
+                record(k, sync(imp_fn(k, False, overflow=(v % 10 == 7))))
             elif a == 3:
                 if mods[k] is not None:
                     ev.append([s("getg"), num(k), num(gv[k]), num(gv[k])])
@@ -539,7 +556,7 @@ def model(ir, tape, faults, chooser=None):
                 ev.append([s("finimp"), num(i), cls("ImportError")])
             else:
                 maingv[0] += 1
-                ev.append([s("maingv"), num(maingv[0]), num(1)])
+                ev.append([s("maingv"), num(maingv[0]), num(1), num(4242)])
         ev.append([s("end"), num(maingv[0])])
     except Open as o:
         taint.add(o.what)
